@@ -127,4 +127,179 @@ def setElected (current new : Nat) : Option Nat :=
 def addGasEstimate (ests : List (Nat × Nat)) (e : Nat × Nat) : Option (List (Nat × Nat)) :=
   if ests.any (fun x => x.1 == e.1) then none else some (ests ++ [e])
 
+/-! ## C04 history model
+
+One consensus queue, the *current* snapshot (`SnapshotProvider`), and the log of applied
+attestation effects, driven by the operations that exist in the Go code:
+
+* `snap`   — the valset keeper publishes a new current snapshot (arbitrary: C10's subject);
+* `put`    — `Queue.Put` with a fresh id (`IncrementNextID`);
+* `ev`     — `Queue.AddEvidence` (`QueuedSignedMessage.AddEvidence`: replace or append);
+* `est`    — `MsgAddMessageGasEstimates` handler (refuses a value below 1) + `Queue.AddGasEstimate`
+             (refused: unknown id, no estimation required, second estimate of the validator);
+* `elect`  — `checkAndProcessEstimatedMessage` for one message inside its `CacheContext`
+             (`feeOk = false`: `checkAndProcessEstimatedFeePayer` failed, nothing is committed);
+* `attest` — `attestMessageWrapper` for one message; `hint` is the group Go's map iteration meets
+             first; the result of the type-specific attester depends on the winning evidence:
+             `hard` / `soft` list the proof hashes on which it fails (`ok` = nil, `soft` =
+             `ErrEthTxNotVerified` / `ErrEthTxFailed`: cache written; `hard` = any other error:
+             cache dropped, message stays);
+* `prune`  — `DeleteJob` (`PruneJob`, superseded valset updates): removal without any declaration.
+
+The end-blocker loops `CheckAndProcessEstimatedMessages` / `CheckAndProcessAttestedMessages` are the
+sequences of `elect` / `attest` over the queue (errors are logged and the loop carries on).
+Attesters that themselves enqueue or delete messages (retry of a `SubmitLogicCall`, clean-up of older
+valset updates) appear as separate `put` / `prune` operations. -/
+namespace Hist
+
+deriving instance DecidableEq for Snapshot
+
+structure Item where
+  id      : Nat
+  /-- `RequireGasEstimation` (flag mask bit) -/
+  req     : Bool
+  /-- `GasEstimates`: `(validator, value)` in submission order -/
+  ests    : List (Nat × Nat) := []
+  /-- `GasEstimate`: the elected value, `0` = none -/
+  elected : Nat := 0
+  /-- `Evidence`: `(validator, proof hash)` -/
+  evs     : List Evidence := []
+deriving Repr, DecidableEq
+
+/-- result of the type-specific attester -/
+inductive Outcome where
+  | ok | soft | hard
+deriving Repr, DecidableEq
+
+structure St where
+  /-- what `SnapshotProvider` returns now -/
+  snap     : Snapshot
+  nextId   : Nat
+  queue    : List Item
+  /-- applied attestation effects, oldest first: `(message id, winning proof hash, attester
+      returned a soft error)`; written in the same cache as the removal -/
+  declared : List (Nat × Nat × Bool)
+deriving Repr, DecidableEq
+
+def St.init : St := { snap := ⟨[], 0⟩, nextId := 0, queue := [], declared := [] }
+
+/-- `GetMsgByID` -/
+def get (q : List Item) (id : Nat) : Option Item := q.find? (fun x => x.id == id)
+/-- `save` under the item's id -/
+def set (q : List Item) (it : Item) : List Item := q.map (fun x => if x.id == it.id then it else x)
+/-- `queue.Delete` -/
+def del (q : List Item) (id : Nat) : List Item := q.filter (fun x => x.id != id)
+
+inductive Op where
+  | snap (s : Snapshot)
+  | put (req : Bool)
+  | ev (id a h : Nat)
+  | est (id a v : Nat)
+  | elect (id : Nat) (feeOk : Bool)
+  | attest (id hint : Nat) (hard soft : List Nat)
+  | prune (id : Nat)
+deriving Repr, DecidableEq
+
+inductive Res where
+  | ok | rejected | absent
+  | newId (id : Nat)
+  | skipped | notAchieved | zero | refused | feeFailed
+  | elected (v : Nat)
+  | noEvidence
+  | declared (h : Nat) (soft : Bool)
+  | hardFail (h : Nat)
+deriving Repr, DecidableEq
+
+/-- the winner Go returns: the first quorum group in map order (`hint`), which is one of the
+    quorum groups; a hint that is not one of them is replaced by the first in evidence order -/
+def pickWinner (ws : List Nat) (hint : Nat) : Nat := if ws.contains hint then hint else ws.headD 0
+
+/-- `Queue.AddEvidence` -/
+def evStep (s : St) (id a h : Nat) : St × Res :=
+  match get s.queue id with
+  | none => (s, .rejected)
+  | some it => ({ s with queue := set s.queue { it with evs := addEvidence it.evs (a, h) } }, .ok)
+
+/-- `msgServer.AddMessageEstimates` (value below 1 refused) + `Queue.AddGasEstimate`; a value outside
+    `uint64` is not representable and refused -/
+def estStep (s : St) (id a v : Nat) : St × Res :=
+  if v < 1 then (s, .rejected) else
+  match get s.queue id with
+  | none => (s, .rejected)
+  | some it =>
+    if !it.req then (s, .rejected)
+    else if !(decide (v < U64)) then (s, .rejected)
+    else match addGasEstimate it.ests (a, v) with
+      | none => (s, .rejected)
+      | some es => ({ s with queue := set s.queue { it with ests := es } }, .ok)
+
+/-- `checkAndProcessEstimatedMessage` (+ the `SetElectedGasEstimate` guards) in its cache context -/
+def electStep (s : St) (id : Nat) (feeOk : Bool) : St × Res :=
+  match get s.queue id with
+  | none => (s, .absent)
+  | some it =>
+    if !it.req then (s, .skipped)
+    else if it.ests.length < 1 then (s, .skipped)
+    else if it.elected > 0 then (s, .skipped)
+    else match verifyGasEstimates s.snap it.ests with
+      | .notAchieved => (s, .notAchieved)
+      | .zero => (s, .zero)
+      | .elected g =>
+        match setElected it.elected g with
+        | none => (s, .refused)
+        | some g' =>
+          if feeOk then ({ s with queue := set s.queue { it with elected := g' } }, .elected g')
+          else (s, .feeFailed)
+
+/-- what the type-specific attester returns for winning proof `w` -/
+def outcomeOf (hard soft : List Nat) (w : Nat) : Outcome :=
+  if hard.contains w then .hard else if soft.contains w then .soft else .ok
+
+/-- `attestMessageWrapper` -/
+def attestStep (s : St) (id hint : Nat) (hard soft : List Nat) : St × Res :=
+  match get s.queue id with
+  | none => (s, .absent)
+  | some it =>
+    if it.evs.length == 0 then (s, .noEvidence)
+    else match verifyEvidence s.snap it.evs with
+      | .notAchieved => (s, .notAchieved)
+      | .winnerIn ws =>
+        match outcomeOf hard soft (pickWinner ws hint) with
+        | .hard => (s, .hardFail (pickWinner ws hint))
+        | .ok => ({ s with queue := del s.queue id,
+                           declared := s.declared ++ [(id, pickWinner ws hint, false)] },
+                  .declared (pickWinner ws hint) false)
+        | .soft => ({ s with queue := del s.queue id,
+                             declared := s.declared ++ [(id, pickWinner ws hint, true)] },
+                    .declared (pickWinner ws hint) true)
+
+def step (s : St) : Op → St × Res
+  | .snap sn => ({ s with snap := sn }, .ok)
+  | .put req =>
+    ({ s with nextId := s.nextId + 1,
+              queue := s.queue ++ [{ id := s.nextId + 1, req := req }] }, .newId (s.nextId + 1))
+  | .ev id a h => evStep s id a h
+  | .est id a v => estStep s id a v
+  | .elect id feeOk => electStep s id feeOk
+  | .attest id hint hard soft => attestStep s id hint hard soft
+  | .prune id =>
+    match get s.queue id with
+    | none => (s, .rejected)
+    | some _ => ({ s with queue := del s.queue id }, .ok)
+
+def apply (s : St) (op : Op) : St := (step s op).1
+
+def runFrom (s : St) (ops : List Op) : St := ops.foldl apply s
+
+def run (ops : List Op) : St := runFrom St.init ops
+
+/-- the results, in order -/
+def traceFrom (s : St) : List Op → List Res
+  | [] => []
+  | op :: ops => (step s op).2 :: traceFrom (apply s op) ops
+
+def trace (ops : List Op) : List Res := traceFrom St.init ops
+
+end Hist
+
 end Paloma.Libcons
